@@ -1,6 +1,10 @@
-"""C08 -- determinism (core only): every fit() re-seeds BOTH random generators with the configured seed before the first
-random draw on every path, and touches no module-level state.  Scheduling / multi-core clauses are outside this technique."""
+"""C08 -- determinism: (a) every fit() re-seeds BOTH random generators with the configured seed before the first random
+draw on every path and touches no module-level state; (b) the multi-core driver (program.run_stdout) is executed under a
+scheduling model of multiprocessing.Pool / Manager().Queue() in which the interleaving of the processes and the failing locus
+are solver variables: every locus is written exactly once as one intact line after the header for every schedule, block
+split and worker count in the bound, and a failing locus makes the program fail."""
 import itertools
+import os
 
 import numpy as rnp
 import z3
@@ -8,21 +12,32 @@ import z3
 from nbsym import engine as E
 
 ID = "C08"
-TITLE = "DenovoMCMC.fit / CallingMCMC.fit / PedigreeCallingMCMC.fit: on every path the numpy and the numba generator are seeded with random_seed before any RNG-consuming call, all chains/samples run after that single seeding, and the result is a function of (inputs, seed) only"
-TECHNIQUE = 'symbolic execution of the fit() drivers with the random generators as explicit state (seeded-before-first-draw on every path); assumption guard on RNG sources; NOT APPLICABLE clauses excluded'
-ENCODED = ["mchap.assemble.mcmc.DenovoMCMC.fit", "mchap.assemble.mcmc.DenovoMCMC._mcmc", "mchap.calling.classes.CallingMCMC.fit", "mchap.pedigree.classes.PedigreeCallingMCMC.fit",
+TITLE = ("DenovoMCMC.fit / CallingMCMC.fit / PedigreeCallingMCMC.fit: on every path the numpy and the numba generator are seeded with random_seed before any RNG-consuming call, all chains/samples run after that single seeding, and the result is a function of (inputs, seed) only; "
+         "program.run_stdout with n cores: for every interleaving of writer / workers / main, header first, every locus exactly once as one intact line, exit status non-zero iff a locus fails")
+TECHNIQUE = ('symbolic execution of the fit() drivers with the random generators as explicit state (seeded-before-first-draw on every path); assumption guard on RNG sources; '
+             'bounded model checking of the real multi-core driver under contract stubs of multiprocessing with solver-chosen schedules and failing locus (every interleaving in the bound), witnesses replayed with real multiprocessing')
+ENCODED = ["mchap.application.baseclass.program.run_stdout", "mchap.application.baseclass.program._run_stdout_multi_core", "mchap.application.baseclass.program._run_stdout_single_core",
+           "mchap.application.baseclass.program._worker", "mchap.application.baseclass.program._writer", "mchap.application.baseclass.program._assemble_loci_wrapped",
+           "mchap.assemble.mcmc.DenovoMCMC.fit", "mchap.assemble.mcmc.DenovoMCMC._mcmc", "mchap.calling.classes.CallingMCMC.fit", "mchap.pedigree.classes.PedigreeCallingMCMC.fit",
            "mchap.application.call.program.call_sample_genotypes", "mchap.application.assemble.program.call_sample_genotypes"]
 STUBS = ["np.random.seed and mchap.jitutils.seed_numba -> recorders of (generator, seed)",
          "every RNG-consuming callee (_denovo_assembler, sample_snv_alleles, calling/pedigree mcmc_sampler, greedy_caller is deterministic) -> recorder returning a value that is an uninterpreted function of (its arguments, generator states); generator state after seeding = S(seed)",
-         "the RNG state before fit() and the results of earlier fits are symbolic (arbitrary history)"]
-ASSUMES = ["numba's and numpy's generators are deterministic functions of their seed (trusted)", "the jitted samplers draw only from those two generators (C01/C02/C18 encode their bodies)"]
-BOUNDS = {"quick": "assemble: 0 or 2 reads, sites all fixed / some / none (symbolic homozygosity probabilities and threshold), initial genotype given or sampled, 1-2 chains, 1-2 temperatures; call: with/without variants, initial given or greedy; pedigree: initial given or greedy; application loops: 2 samples",
-          "thorough": "same (the state space is small and fully explored)"}
-OUTSIDE = ("NOT APPLICABLE clauses: worker counts, block splits, locus order/subsets, line atomicity of the multiprocessing writer and the exit status on a failing locus live in "
-           "multiprocessing.Pool/Manager, OS processes and pysam iteration -- nothing a solver can execute symbolically; they are outside the claim")
+         "the RNG state before fit() and the results of earlier fits are symbolic (arbitrary history)",
+         "multiprocessing.Pool / Manager().Queue() / sys.stdout -> nbsym/sched.py contract stubs (Pool(n): at most n tasks at once, FIFO start, AsyncResult.get re-raises, join waits for all tasks, daemonic workers die with the main process; Queue: unbounded FIFO, get blocks; stdout: writes of different processes may interleave in chunks); each simulated process is a thread that runs only when the solver-chosen schedule selects it",
+         "call_locus -> returns the record line of the locus or raises for the solver-chosen failing locus; header()/loci() -> fixed lists"]
+ASSUMES = ["numba's and numpy's generators are deterministic functions of their seed (trusted)", "the jitted samplers draw only from those two generators (C01/C02/C18 encode their bodies)",
+           "multi-core group: the standard library behaves as its documented contract (stub validated against real multiprocessing in validate()); pickling of the program object succeeds; partial-order reduction: steps that commute with all other processes are not permuted",
+           "the record of a locus is a function of (locus, inputs, seed) -- that is the seeding core above -- so the multi-core group uses opaque record lines"]
+BOUNDS = {"quick": "assemble: 0 or 2 reads, sites all fixed / some / none (symbolic homozygosity probabilities and threshold), initial genotype given or sampled, 1-2 chains, 1-2 temperatures; call: with/without variants, initial given or greedy; pedigree: initial given or greedy; application loops: 2 samples; "
+                   "multi-core: (loci, cores) in {(1,1),(2,1),(1,2),(2,2),(3,2)}, failing locus in {none, each locus}, ALL schedules",
+          "thorough": "same fit() space (small, fully explored); multi-core: adds (4,2),(2,3),(3,3),(4,3),(5,2),(5,3)"}
+OUTSIDE = ("the OS / CPython implementation of multiprocessing (processes, pickling, pipes, signals) is replaced by its documented contract; more loci / cores than the bound; "
+           "iteration over the targets file by pysam (locus order/subsets are covered only through 'a record depends on its locus and the seed alone'); header date/command lines; "
+           "byte-identity of floating-point results across machines")
 TASKS_PER_CHILD = 2
 LEVEL_TEXT = ("Bounded symbolic execution of the three fit() drivers with the RNG modelled as explicit state: the obligation 'both generators hold S(seed) at the first draw and nothing else is read' is checked on every path. "
-              "Only the seeding/non-interference core of C08 is claimed; scheduling clauses are not applicable to this technique.")
+              "Bounded model checking of the real run_stdout/_run_stdout_multi_core/_worker/_writer source under a scheduling model of multiprocessing: the schedule and the failing locus are solver variables, all interleavings inside the bound "
+              "(up to 3 loci x 2 cores quick, 5 x 3 thorough) are enumerated through the solver (realised mode: the per-schedule verdict is a concrete comparison), and witnesses are replayed with real multiprocessing.")
 
 
 def configs(tier):
@@ -39,10 +54,17 @@ def configs(tier):
             out.append(dict(group="pedigree", initial=initial, seed=seed))
     out.append(dict(group="app-call"))
     out.append(dict(group="rng-sources"))
+    # multi-core driver under the scheduling model (nbsym/sched.py): every interleaving is a solver-chosen schedule
+    mc = [(1, 1), (1, 2), (2, 2), (3, 2)] if tier == "quick" else [(1, 1), (1, 2), (2, 2), (3, 2), (4, 2), (2, 3), (3, 3), (4, 3), (5, 2), (5, 3)]
+    for n_loci, n_cores in mc:
+        out.append(dict(group="multicore", n_loci=n_loci, n_cores=n_cores))
+    out.append(dict(group="multicore", n_loci=2, n_cores=1))
     return out
 
 
 def weight(c):
+    if c["group"] == "multicore":
+        return 10 * c["n_loci"] * c["n_cores"]
     return 2 if c["group"] == "assemble" else 1
 
 
@@ -358,6 +380,178 @@ def _run_rng_sources(c, col):
         col.ok("the sampler modules draw randomness only through numpy's namespace (np.random.*), i.e. the generators fit() seeds")
 
 
+
+# ------------------------------------------------------------------ multi-core driver under a scheduling model
+
+MC_HEADER = ["##fileformat=VCFv4.3", "#CHROM\tPOS"]
+MC_SITE = "mchap.application.baseclass.program.run_stdout"
+
+
+def _mc_line(name):
+    return "LINE-%s-0123456789" % name
+
+
+def mc_judge(text, exited_ok, hang, n_loci, fail, header, line_of):
+    """the C08 multi-core clauses as a predicate over (what reached stdout, exit status): returns [(kind, description)]"""
+    bad = []
+    if hang:
+        return [("hang", "the program neither finishes nor fails: %s" % (hang,))]
+    lines = text.split("\n")
+    if lines and lines[-1] == "":
+        lines = lines[:-1]
+    elif text:
+        bad.append(("torn-line", "output does not end with a complete line"))
+    if lines[: len(header)] != header:
+        bad.append(("header", "the header lines are not the first lines of the output"))
+    body = lines[len(header):] if lines[: len(header)] == header else [ln for ln in lines if ln not in header]
+    expected = [line_of("L%d" % i) for i in range(n_loci)]
+    for ln in body:
+        if ln not in expected:
+            bad.append(("torn-line", "a line that is no record was written: %r" % (ln[:40],)))
+            break
+    for e in expected:
+        if body.count(e) > 1:
+            bad.append(("duplicate-line", "record %s written %d times" % (e[:8], body.count(e))))
+            break
+    if fail < 0:
+        if not exited_ok:
+            bad.append(("spurious-failure", "no locus fails but the program exits with an error"))
+        missing = [e[:8] for e in expected if e not in body]
+        if missing and exited_ok:
+            bad.append(("lost-line", "records %s never reach stdout although the program exits with status 0" % (missing,)))
+    else:
+        # a failing run only has to fail loudly (a line cut short by the dying process is not held against it)
+        bad = [b for b in bad if b[0] == "duplicate-line"]
+        if exited_ok:
+            bad.append(("silent-failure", "locus L%d fails but the program exits with status 0" % fail))
+    return bad
+
+
+def _run_multicore(c, col):
+    from nbsym import sched
+
+    n_loci, n_cores = c["n_loci"], c["n_cores"]
+    bc = E.load("mchap.application.baseclass")
+    loci_mod = E.load("mchap.io.loci")
+    real_sys = bc.sys
+    col.functions |= {"mchap.application.baseclass.program.run_stdout", "mchap.application.baseclass.program._run_stdout_multi_core",
+                      "mchap.application.baseclass.program._run_stdout_single_core", "mchap.application.baseclass.program._worker",
+                      "mchap.application.baseclass.program._writer", "mchap.application.baseclass.program._assemble_loci_wrapped"}
+
+    chunk = [False]
+
+    def body(ctx):
+        fail = ctx.concretize_int(E.fresh_int(ctx, "failing_locus", -1, n_loci - 1))
+        nchoice = [0]
+
+        def choose(n, labels):
+            v = E.fresh_int(ctx, "sched%d" % nchoice[0], 0, n - 1)
+            nchoice[0] += 1
+            return ctx.concretize_int(v)
+
+        sim = sched.Sim(choose, chunk_writes=chunk[0])
+
+        class FakeSys:
+            stdout = sched.SimStdout(sim)
+            stderr = real_sys.stderr
+
+            def __getattr__(self, k):
+                return getattr(real_sys, k)
+
+        loci = [loci_mod.Locus(contig="c", start=i, stop=i + 1, name="L%d" % i, sequence="A", variants=()) for i in range(n_loci)]
+
+        class P(bc.program):
+            def loci(self):
+                return iter(loci)
+
+            def header(self):
+                return list(MC_HEADER)
+
+            def call_locus(self, locus, sample_bams):
+                if locus.name == "L%d" % fail:
+                    raise ValueError("locus %s cannot be assembled" % locus.name)
+                return _mc_line(locus.name)
+
+        prog = P(vcf=None, ref=None, samples=[], sample_bams={}, sample_ploidy={}, sample_inbreeding={}, n_cores=n_cores)
+        bc.mp = sched.mp_module(sim)
+        bc.sys = FakeSys()
+        try:
+            main = sim.run(prog.run_stdout)
+        finally:
+            bc.sys = real_sys
+        text = "".join(ch for _, ch in sim.stdout)
+        writers = sorted(sim.writers)
+        return fail, text, main.done and main.exc is None, sim.deadlock, list(sim.schedule), writers, repr(main.exc)
+
+    first = True
+    all_writers = set()
+    nbad = 0
+    for pr in _mc_paths(body, col, chunk, all_writers):
+        if pr.exc is not None:
+            col.fail(MC_SITE, "exception", witness=dict(exc=repr(pr.exc)), desc="harness/driver raised %r" % (pr.exc,))
+            continue
+        col.path()
+        if first:
+            col.reachable(pr.ctx)
+            first = False
+        fail, text, ok, deadlock, schedule, writers, exc = pr.value
+        all_writers |= set(writers)
+        bad = mc_judge(text, ok, deadlock, n_loci, fail, MC_HEADER, _mc_line)
+        order = [m.group(1) for m in __import__("re").finditer(r"LINE-(L\d+)-", text)]
+        w = dict(n_loci=n_loci, n_cores=n_cores, fail=fail, schedule=schedule[:80], order=order, writers=writers, exit_exc=exc)
+        if bad:
+            kind, desc = bad[0]
+            col.fail(MC_SITE, kind, shape=dict(kind=kind), witness=w, desc=desc, model=E.model_dict(_model_of(pr.ctx)))
+            nbad += 1
+            if nbad >= 12:
+                break
+        else:
+            col.ok("n_loci=%d cores=%d failing=%s: %s" % (n_loci, n_cores, fail if fail >= 0 else None,
+                                                        "exit status non-zero; only intact, unduplicated records were written" if fail >= 0 else
+                                                        "header first, every record exactly once and intact, exit status 0"))
+
+
+def _mc_paths(body, col, chunk, all_writers):
+    """first every schedule with atomic writes; if more than one process turned out to write to stdout after the first
+    child was created, every schedule again with those writes chunked (torn lines become visible)"""
+    for pr in E.explore(body, stats=col.stats):
+        yield pr
+    if len(all_writers) > 1:
+        chunk[0] = True
+        for pr in E.explore(body, stats=col.stats, max_paths=20000):
+            yield pr
+
+
+def _model_of(ctx):
+    ctx.isolver.check()
+    return ctx.isolver.model()
+
+
+def _replay_multicore(v, attempts=3, kinds=None):
+    import subprocess
+    import sys as _sys
+
+    w = v.get("witness") or {}
+    n_loci, n_cores, fail = int(w.get("n_loci", 3)), int(w.get("n_cores", 2)), int(w.get("fail", -1))
+    order = list(w.get("order") or [])
+    from checks import c08_real
+
+    env = dict(os.environ, PYTHONPATH=os.pathsep.join([E.repo_root(), os.path.dirname(os.path.dirname(os.path.abspath(__file__)))]))
+    verdicts = []
+    for attempt, ordr in enumerate([order, order[::-1], []][:attempts]):
+        try:
+            p = subprocess.run([_sys.executable, "-m", "checks.c08_real", str(n_loci), str(n_cores), str(fail), ",".join(ordr)],
+                               capture_output=True, text=True, timeout=90, env=env, cwd=os.path.dirname(os.path.dirname(os.path.abspath(__file__))))
+            bad = mc_judge(p.stdout, p.returncode == 0, None, n_loci, fail, c08_real.HEADER, c08_real.line_of)
+        except subprocess.TimeoutExpired:
+            bad = [("hang", "the real program did not finish within 90 s")]
+        if kinds is not None:
+            kinds.extend(k for k, _ in bad)
+        if bad:
+            return True, "real multiprocessing run (n_loci=%d, cores=%d, failing locus=%s): %s" % (n_loci, n_cores, fail if fail >= 0 else None, "; ".join(d for _, d in bad)[:300])
+        verdicts.append("ok")
+    return False, "real multiprocessing runs behaved (3 attempts)"
+
 # ------------------------------------------------------------------ replay: real classes, real generators
 
 
@@ -367,6 +561,8 @@ def replay(v):
     from mchap.jitutils import seed_numba
 
     g = v["config"]["group"]
+    if g == "multicore":
+        return _replay_multicore(v)
     if g == "rng-sources":
         g = "assemble"
     rs = v["config"].get("seed", 11)
@@ -405,5 +601,18 @@ def validate(seed):
     for g in ("assemble", "call", "pedigree"):
         bad, info = replay(dict(config=dict(group=g, seed=11)))
         assert not bad, info
+        n += 1
+    # the scheduling model's verdicts agree with real multiprocessing on the unchanged driver: no failing locus / a failing one
+    # (whatever the real run shows, some schedule of the model must show too -- on a changed tree both may fail)
+    from nbsym import runner
+
+    for fail in (-1, 1):
+        kinds = []
+        _replay_multicore(dict(witness=dict(n_loci=3, n_cores=2, fail=fail, order=["L2", "L0", "L1"])), attempts=1, kinds=kinds)
+        col = runner.Collector(dict(group="multicore", n_loci=3, n_cores=2))
+        col.stats = E.Stats()
+        run_config(col.cfg, col)
+        model_kinds = {v["kind"] for v in col.violations if (v.get("witness") or {}).get("fail") == fail}
+        assert set(kinds) <= model_kinds, "real multiprocessing shows %s but no schedule of the model does (model: %s)" % (kinds, sorted(model_kinds))
         n += 1
     return n
